@@ -8,4 +8,4 @@ for id in "$@"; do
   out=$(./check "$id" 2>&1); rc=$?
   echo "== $id rc=$rc"; echo "$out" | grep -E "VIOLATION|KNOWN|\[OK\]|\[FAIL\]|INFRA" | cut -c1-300
 done
-cd /repo && git checkout -- . && git status --short | grep -v "^??"; cd /verif && python3 translate/omp_plan.py; python3 translate/c_index.py; python3 translate/py_contig.py; python3 translate/c_layout.py; python3 translate/py_band.py
+cd /repo && git checkout -- . && git status --short | grep -v "^??"; cd /verif && for t in translate/*.py; do python3 $t; done
